@@ -11,8 +11,12 @@ Raw == {S(i, c, f, o) : i \in {"missing", "directory", "empty", "blank", "syntax
 AllSits == {s \in Raw : /\ ~(s.input \in {"missing", "directory"} /\ s.channel \in {"dash", "stdin"})
                         /\ ~(s.input = "blank" /\ s.channel = "path")}
            \cup {SO(i, c, f, o, w) : i \in {"ok", "syntax"}, c \in {"path", "stdin"}, f \in {"json", "csv"}, o \in {"none", "both"},
-                                      w \in {"newfile", "exists", "force"}}
+                                      w \in {"newfile", "exists", "force", "baddir", "brokenpipe"}}
+           \* input that is not UTF-8, CRLF line ends, a report definition the library refuses by calling sys.exit
+           \cup {S(i, c, f, o) : i \in {"undecodable", "crlf", "libexit"}, c \in {"path", "dash", "stdin"}, f \in {"json", "csv"}, o \in {"none", "both"}}
+           \cup {SO(i, "path", "json", "none", w) : i \in {"undecodable", "libexit"}, w \in {"newfile", "brokenpipe"}}
 \* three concurrent processes (C20): a representative mix incl. failing ones
 ConcSits == {S("ok", "path", "json", "json"), S("ok", "stdin", "json", "none"), S("syntax", "path", "csv", "both"),
-             S("empty", "stdin", "json", "none"), SO("ok", "path", "csv", "csv", "exists")}
+             S("empty", "stdin", "json", "none"), SO("ok", "path", "csv", "csv", "exists"),
+             S("undecodable", "path", "json", "none"), S("libexit", "stdin", "csv", "none"), SO("ok", "path", "json", "none", "brokenpipe")}
 =======================================================================================
